@@ -10,6 +10,7 @@ LUA_PAGES = ["{{#invoke:counter|main}}", "{{#invoke:glob|main}} {{#invoke:glob|m
              "{{#invoke:uselib|main}}{{#invoke:uselib|main}}", "{{#invoke:usedata|main}}", "{{#invoke:args|main|q}}",
              "{{#invoke:osdate|main}}", "{{#invoke:mathlib|main}}", "{{#invoke:pkg|main}}", "{{cnt}}",
              "{{#invoke:bad|main}} then {{#invoke:counter|main}}", "{{#invoke:echo|main|a|b=c}}", "{{#invoke:pp|main|k}}",
+             "{{#invoke:usejson|main}}", "{{#invoke:usejson|main}} {{#invoke:usedata|main}} {{#invoke:usejson|main}}",
              "{{#invoke:nesta|main}}", "{{#invoke:nesta2|main}}", "{{#invoke:probe2|main}}", "{{#invoke:probe2|main}} {{#invoke:nesta|main}}",
              # invocations that fail at different points, followed by invocations that must still be isolated from one another
              "{{#invoke:echo|nofn}} {{#invoke:counter|main}} {{#invoke:counter|main}}",
